@@ -82,7 +82,7 @@ def witness_search(pid, names, repo, scratch, say):
     return None
 
 
-def make_replay(pid, mine, kani_fail, meta, repo, scratch, say, tier):
+def make_replay(pid, mine, kani_fail, meta, repo, scratch, say, tier, standin_hit=None):
     d = _replay_dir()
     n = 0
     while os.path.exists(os.path.join(d, '%s-%d.json' % (pid, n))):
@@ -94,9 +94,13 @@ def make_replay(pid, mine, kani_fail, meta, repo, scratch, say, tier):
                             'repo_line': r.get('src_line'), 'function': r.get('fn'), 'diagnostic': r.get('rendered', '')})
     for h in kani_fail:
         obligations.append({'obligation': 'kani ' + h['name'], 'back_end': 'kani/cbmc', 'message': 'harness failed', 'diagnostic': h['detail']})
-    witness = None
+    witness = standin_hit
+    if standin_hit:
+        obligations.append({'obligation': 'bounded stand-in ' + standin_hit.get('search', ''), 'back_end': 'native execution of /repo (bounded)',
+                            'message': standin_hit.get('observed', ''), 'diagnostic': json.dumps(standin_hit)})
     try:
-        witness = witness_search(pid, list(mine), repo, scratch, say)
+        if witness is None:
+            witness = witness_search(pid, list(mine), repo, scratch, say)
     except Exception as e:  # noqa  -- the search must never turn into an error of its own
         say(pid, 'witness search did not run: %s' % e)
     rec = {'property': pid, 'created': time.strftime('%Y-%m-%dT%H:%M:%S'), 'failed_obligations': obligations,
